@@ -4,7 +4,14 @@ from common import *
 import vm_corr, vm_checks, progs
 
 PROP_MODULE = "NeverModel.Props.C13"
-REQUIRED = ["Never.C13.tail_call_restores_entry"]
+REQUIRED = ["Never.C13.tail_call_restores_entry",
+            # the tail-call marker front/tailrec.c: translator tie (gen/tailtab.py -> Gen/TailTab.lean) and the model's theorems
+            "Never.Src.Tail.C13.tail_table_agrees", "Never.Src.Tail.C13.retag_rule_agrees", "Never.Src.Tail.C13.tail_table_sound_partial",
+            "Never.Src.Tail.C13.tail_table_complete", "Never.Src.Tail.C13.tail_table_catch_and_nested", "Never.Src.Tail.C13.case_labels_covered",
+            "Never.Src.Tail.C13.cTab_eq_refTab", "Never.Src.Tail.C13.opens_table_consistent", "Never.Src.Tail.C13.marker_sound", "Never.Src.Tail.C13.marker_sound_c_partial",
+            "Never.Src.Tail.C13.marker_complete", "Never.Src.Tail.C13.marker_complete_c", "Never.Src.Tail.C13.marker_skips_catch",
+            "Never.Src.Tail.C13.marker_skips_catch_c", "Never.Src.Tail.C13.tail_position_value", "Never.Src.Tail.C13.tail_call_owes_handlers", "Never.Src.Tail.C13.tail_call_replaces_frame",
+            "Never.Src.Tail.C13.operand_not_tail_counterexample", "Never.Src.Tail.C13.scrutinee_not_tail_counterexample"]
 
 def peak(r):
     for l in r["lines"]:
@@ -28,6 +35,15 @@ def count_tail_calls(dump_path):
         pass
     return n
 
+def marker_search():
+    """after a broken proof / tie of the marker's table: look for a program on which the implementation and the reference
+    evaluator disagree, among the position-class programs (tailpos.py) and the tail corpus"""
+    try:
+        import tailpos
+        return tailpos.search()
+    except Exception as e:
+        return None
+
 OPC = {}
 def load_opcodes():
     src = open(os.path.join(LEAN, "NeverModel", "Gen", "Opcodes.lean")).read()
@@ -38,7 +54,13 @@ def load_opcodes():
 def check(tier, seed):
     rep = Report("C13", tier, seed, "proof")
     run([sys.executable, os.path.join(VERIF, "gen", "opcodes.py")])
-    proof_stage(rep, PROP_MODULE, required=REQUIRED)
+    proof_stage(rep, PROP_MODULE, required=REQUIRED, search=marker_search)
+    tie = [n for n in rep.cov.get("translator_notes", []) if n.startswith("tailtab:")]
+    if tie:
+        # a shape of front/tailrec.c the translator does not recognise: the table was NOT regenerated, the theorems above are about the last good one
+        found = marker_search()
+        rep.violation("tailtab_tie_broken", "translator gen/tailtab.py: broken tie (front/tailrec.c has a shape that is not recognised; Gen/TailTab.lean NOT regenerated)\n%s%s"
+                      % ("\n".join(tie), ("\n--- failing input found on the implementation ---\n" + found) if found else ""), bool(found))
     load_opcodes()
     h = vm_corr.VmHarness()
     stats, rows = {}, []
@@ -80,12 +102,19 @@ def check(tier, seed):
             for (_, r, _, _, _) in res:
                 h.cleanup(r)
     h.close()
+    # which calls are marked: generator's position classes vs the model of tailrec.c (nmdrv tail) vs the dumped code; results vs the
+    # reference evaluator; all-tail programs in constant stack
+    import tailpos
+    tp = tailpos.run(rep, tier, seed)
+    rep.cov["tail_positions"] = {k: v for k, v in tp.items() if k != "found"}
     rep.cov.update(trusted_base=["Lean 4.33 kernel", "axioms: propext, Classical.choice, Quot.sound", "h_vm.c peak-sp hook + comparator", "gcc/ASan"],
-                   evaluations=2 * len(rows), distinct_nontrivial=len(rows),
+                   evaluations=2 * len(rows) + tp["programs"], distinct_nontrivial=len(rows) + tp["functions"],
                    rule="each tail-recursive shape (?:, block, match arm, record match arm, if-let, no-parameter with local, allocating) is run at N and 10N iterations, N far above the 200-slot stack; peak sp (per-instruction hook) must be equal; the N run is replayed in lockstep on the Lean VM",
                    samples=rows[:4], rows=rows, statuses=stats)
-    rep.assumptions = ["tail-position analysis of tailrec.c is not modelled: its effect is observed as SLIDE;CALL in the dumped code and as constant peak sp",
-                       "result = equivalent loop is covered through the lockstep replay and C02's evaluator"]
+    rep.assumptions = ["front/tailrec.c is modelled by Model/TailRec.lean (markedAt over the table regenerated from the C text by gen/tailtab.py); the self test (symbol-table lookup) is mirrored by names: parameters and block items shadow; names bound by match / if-let guards and for-in are visible only below the next block",
+                       "the excused table entry: the function expression of a call receives the tail flag (marker_sound_c_partial); no typed program can exploit it",
+                       "whether a retagged call may replace the frame of a function WITH catch clauses is not part of the model: known finding tail-call-under-own-catch-clauses",
+                       "result = equivalent loop is covered through the lockstep replay, C02's evaluator on the position-class programs, and tail_position_value on the evaluator"]
     return rep.finish()
 
 def replay(path):
